@@ -170,13 +170,18 @@ def derive_struct(hdrs):
 
 
 def badq(v):
-    v = v.strip()
-    return "\\" not in v and ((v.startswith("\"") != v.endswith("\"")) or v == "\"")   # clear-cut unbalanced quoting only
+    # clear-cut unbalanced quoting only; "surrounding whitespace" is HTTP's OWS (SP / HTAB) for a field value while the code trims
+    # with str.strip() (which also removes FF, FS..US, NEL, NBSP): the demand is made only where both readings agree
+    def one(v):
+        return "\\" not in v and ((v.startswith("\"") != v.endswith("\"")) or v == "\"")
+    return one(v.strip(" \t")) and one(v.strip())
 
 
 def must400(hdrs, tph, count):
     """-> class name when the statement says this must be refused (malformed thing in a trusted kind, in the
     trusted suffix / effective position), else None"""
+    if any("\\" in hdrs.get(k, "") for k in tph):
+        return None   # quoted-pair subtleties ("\\h" is "h" inside a quoted string): no demand
     if "x-forwarded-proto" in tph and hdrs.get("x-forwarded-proto"):
         v = hdrs["x-forwarded-proto"]
         if badq(v):
@@ -372,6 +377,8 @@ def run_case_full(case):
             elif k.startswith("_contains:"):
                 if v not in (env.get(k.split(":", 1)[1]) or ""):
                     fail("hop-selection/" + k.split(":", 1)[1], "%s = %r does not come from the selected hop %r" % (k, env.get(k.split(":", 1)[1]), v))
+            elif "forwarded" in tph and isinstance(v, str) and isinstance(env.get(k), str) and env.get(k).lower() == v.lower():
+                pass   # Forwarded pairs are lower-cased by the server: host names and hex addresses are case-insensitive
             elif env.get(k) != v:
                 fail("hop-selection/" + k, "%s = %r, model (count %d) says %r; headers %r" % (k, env.get(k), count, v, hdrs))
         # untouched metadata when no trusted kind can set it
@@ -549,10 +556,20 @@ def jobs(tier, seed):
     n = 2500 if tier == "quick" else 60000
     for sh in range(16):
         js.append({"kind": "hyp", "n": n, "seed": derive_seed(seed, "c16", sh)})
+    # E5: coverage-guided campaign over arbitrary field-value bytes, the same oracle inside the target
+    if tier == "quick":
+        js.append({"kind": "fuzz", "runs": 20000, "seed": derive_seed(seed, "c16", "fz", 0), "max_len": 200})
+    else:
+        js += [{"kind": "fuzz", "runs": 1000000, "seed": derive_seed(seed, "c16", "fz", i), "seed_corpus": i % 4 != 3, "max_len": 300, "max_total_time": 900}
+               for i in range(16)]
     return js
 
 
 def run_job(job, col):
+    if job["kind"] == "fuzz":
+        from ..fuzz import run_fuzz_job
+        return run_fuzz_job(job, col, PID)
+
     def one(case):
         try:
             fs, nt, labels = run_case_full(case)
